@@ -7,6 +7,7 @@
 #include "common/vtrace.h"
 #include <booster/verif_trace.h>
 #include <booster/aio/io_service.h>
+#include <booster/aio/deadline_timer.h>
 #include <booster/aio/reactor.h>
 #include <booster/aio/aio_category.h>
 #include <booster/aio/types.h>
@@ -260,7 +261,15 @@ static void closerace(int nops,unsigned seed,std::vector<aio::event_handler> &ke
 			srv->set_io_event(sp[0],ev,eh);
 			hs[cnt++]=h;
 		}
-		if(R(3)==0) { char ch='x'; ssize_t w=write(sp[1],&ch,1); (void)w; }
+		bool made_ready = R(3)==0;
+		if(made_ready) { char ch='x'; ssize_t w=write(sp[1],&ch,1); (void)w; }
+		if((what==1 || (what==0 && made_ready)) && R(2)) {
+			// the event really happens (a socket is always writeable / a byte is waiting): the handler has to be
+			// invoked with success without any cancel - also on a descriptor number that was used and closed before
+			bool fired=false;
+			for(int spin=0;spin<20000;spin++) { if(hstates[hs[0]].runs.load()>0) { fired=true; break; } usleep(100); }
+			if(!fired) break;
+		}
 		if(R(2)) { long long until=ptime::microseconds(ptime::now())+R(150); while(ptime::microseconds(ptime::now())<until) ; }
 		srv->cancel_io_events(sp[0]);
 		close(sp[0]); close(sp[1]);          // at once: the cancel may still be queued
@@ -273,6 +282,36 @@ static void closerace(int nops,unsigned seed,std::vector<aio::event_handler> &ke
 		progress++;
 	}
 }
+
+// booster::aio::deadline_timer used the way applications do: a periodic timer whose handler re-arms the same
+// timer object from inside itself, cancelled later.  Everything runs on the loop thread (posted functors).
+struct dt_ctx {
+	aio::deadline_timer *t; int left; int cur_h; long cur_dl; std::vector<aio::event_handler> *keep;
+};
+static dt_ctx dts[4];
+static void dt_arm(int i,int ms);
+struct dt_handler {
+	int i,h; long dl;
+	void operator()(booster::system::error_code const &e) const
+	{
+		int cls = !e ? 0 : (e.category()==aio::aio_error_cat && e.value()==aio::aio_error::canceled ? 1 : 2);
+		bv::emit("\"e\":\"Run\",\"h\":%d,\"ec\":%d,\"cls\":%d,\"t\":%ld,\"dl\":%ld",h,e.value(),cls,(long)(ptime::milliseconds(ptime::now())-base_ms),dl);
+		hstates[h].runs++; ran_count++; progress++;
+		if(!e && dts[i].left>0) { dts[i].left--; dt_arm(i, dts[i].left==0 ? 60000 : 1+ (h%3)); }   // the last wait is far away: only cancel() ends it
+	}
+};
+static void dt_arm(int i,int ms)
+{
+	int h=next_h++; long dl=(long)(ptime::milliseconds(ptime::now())-base_ms)+ms;
+	dt_handler f={i,h,dl}; aio::event_handler eh(f); dts[i].keep->push_back(eh);
+	bv::emit("\"e\":\"Reg\",\"h\":%d,\"p\":%lu,\"kind\":\"dtimer\",\"dl\":%ld",h,pid_of(eh.get_pointer().get()),dl);
+	reg_count++;
+	dts[i].cur_h=h; dts[i].cur_dl=dl;
+	dts[i].t->expires_from_now(ptime::milliseconds(ms));
+	dts[i].t->async_wait(eh);
+}
+struct dt_start { int i,chain; void operator()() const { dts[i].left=chain; dt_arm(i,1); } };
+struct dt_cancel { int i; void operator()() const { bv::emit("\"e\":\"DCancel\",\"h\":%d",dts[i].cur_h); dts[i].t->cancel(); } };
 
 struct loop_runner {
 	void operator()() const
@@ -333,6 +372,21 @@ int main(int argc,char **argv)
 		}
 		booster::thread loop((loop_runner()));
 		std::vector<booster::thread *> th;
+		if(mode=="dtimer") {
+			int nt = producers>4 ? 4 : producers;
+			for(int i=0;i<nt;i++) { dts[i].t=new aio::deadline_timer(*srv); dts[i].keep=&keep[0]; dt_start st={i,1+(int)((seed+r+i)%nops)}; srv->post(st); }
+			usleep(30000 + 3000*nops);
+			for(int i=0;i<nt;i++) { dt_cancel dc={i}; srv->post(dc); }
+			for(int spin=0;spin<30000 && ran_count.load()<reg_count.load();spin++) usleep(100);
+			bv::emit("\"e\":\"Quiesce\",\"reg\":%ld,\"ran\":%ld",reg_count.load(),ran_count.load());
+			if(ran_count.load()<reg_count.load()) { bv::close(); _exit(0); }
+			srv->stop();
+			loop.join();
+			for(int i=0;i<nt;i++) delete dts[i].t;
+			keep.clear(); keep2.clear();
+			delete srv; srv=0;
+			continue;
+		}
 		if(mode=="closerace") {
 			usleep(1000);
 			closerace(nops,seed*19+r*5+reactor,keep[0]);
